@@ -375,7 +375,66 @@ def make_treefilter(name):
         f = filters.OutputPythonFilter() if kind == 'outpython' else filters.OutputPHPFilter()
         f.count = int(arg) - 1
         return f
+    if kind == 'reindent':
+        ch, w, wa, cf, ic, cp, iaf = arg.split(':')
+        return filters.ReindentFilter(width=int(w), char=''.join(chr(int(h, 16)) for h in ch.split('-') if h),
+                                      wrap_after=int(wa), comma_first=cf == '1', indent_columns=ic == '1',
+                                      compact=cp == '1', indent_after_first=iaf == '1')
+    if kind == 'aligned':
+        return filters.AlignedIndentFilter(char=''.join(chr(int(h, 16)) for h in arg.split('-') if h))
     raise ValueError(name)
+
+
+def reindent_spec(char=' ', width=2, wrap_after=0, comma_first=False, indent_columns=False, compact=False,
+                  indent_after_first=False):
+    b = lambda x: '1' if x else '0'
+    return 'reindent:%s:%d:%d:%s:%s:%s:%s' % ('-'.join('%x' % ord(c) for c in char), width, wrap_after, b(comma_first),
+                                             b(indent_columns), b(compact), b(indent_after_first))
+
+
+def s_treescript(ctx, inputs, fuel=100000, stream='S-TREES', scripts=()):
+    """inputs: (text, chain) pairs; all statements of `parse(text)` go through ONE stack of filter objects, each statement
+    through the whole chain before the next (as in FilterStack.run), so cross-statement state (`_last_stmt`, `_last_func`,
+    output `count`) is exercised.  scripts: (list of statement S-expressions, chain) for trees `parse` cannot produce."""
+    import sqlparse
+    cases = []
+    todo = []
+    for s, chain in inputs:
+        try:
+            todo.append((s, chain, list(sqlparse.parse(s))))
+        except Exception:
+            ctx.count('treescript.parse-failed')
+    for trees, chain in scripts:
+        todo.append((' '.join(trees), chain, [sexp_build(sexp_parse(t.split())[0]) for t in trees]))
+    for s, chain, stmts in todo:
+        objs = [(n, make_treefilter(n)) for n in chain.split(',')]
+        before = [sexp(st) for st in stmts]
+        out = []
+        io = None
+        for i, st in enumerate(stmts, 1):
+            try:
+                for n, f in objs:
+                    f.process(st)
+                    if n.startswith('out'):
+                        st.tokens = list(st.tokens)
+                out.append(fsexp(st))
+            except Exception as e:
+                io = 'err %s %d' % (type(e).__name__, i)
+                ctx.count('%s:%s' % (stream, io.rsplit(' ', 1)[0]))
+                break
+        if io is None:
+            io = 'ok ' + ' '.join(out)
+        cases.append((s, chain, 'treefilter %s %d %s' % (chain, fuel, ' '.join(before)), io, len(stmts)))
+    outs = ctx.model.ask([c[2] for c in cases])
+    n = 0
+    for (s, chain, _, io, k), mo in zip(cases, outs):
+        ctx.stream(stream, inputs=k, lines=1)
+        n += k
+        if io.split() != mo.split():
+            a, b = mo.split(), io.split()
+            j = next((j for j, (x, y) in enumerate(zip(a, b)) if x != y), min(len(a), len(b)))
+            ctx.mismatch(stream, (s, chain), ' '.join(a[max(0, j - 8):j + 14]), ' '.join(b[max(0, j - 8):j + 14]))
+    return n
 
 
 def apply_treefilters(stmt, names):
@@ -449,7 +508,7 @@ def s_treefilter(ctx, inputs, filtername, fuel=100000, stream=None, trees=()):
             apply_treefilters(st, filtername)
             io = 'ok ' + fsexp(st)
         except Exception as e:
-            io = 'err ' + type(e).__name__
+            io = 'err ' + type(e).__name__ + ' 1'
         cases.append((t, before, io))
     for s in inputs:
         try:
@@ -463,7 +522,7 @@ def s_treefilter(ctx, inputs, filtername, fuel=100000, stream=None, trees=()):
                 apply_treefilters(st, filtername)
                 io = 'ok ' + fsexp(st)
             except Exception as e:
-                io = 'err ' + type(e).__name__
+                io = 'err ' + type(e).__name__ + ' 1'
             cases.append((s, before, io))
     outs = ctx.model.ask(['treefilter %s %d %s' % (filtername, fuel, b) for _, b, _ in cases])
     for (s, before, io), mo in zip(cases, outs):
@@ -570,6 +629,31 @@ def s_fmtstmt(ctx, inputs, fuel=100000):
         if io.split() != mo.split():
             ctx.mismatch('S-FMT2', inp, mo[:300], io[:300])
     return len(reqs)
+
+
+def s_fmt(ctx, cases, fuel=20000):
+    """cases: (text, option dict).  Model `fmt` (validate_options -> build_filter_stack -> lex -> preprocess -> split ->
+    group -> stmtprocess -> postprocess -> join) against sqlparse.format(text, **opts), exceptions by class name."""
+    import sqlparse
+    outs = ctx.model.ask(['fmt %s %d %s' % (enc_dict(o) or '-', fuel, hexs(t)) for t, o in cases])
+    for (t, o), mo in zip(cases, outs):
+        try:
+            io = 'ok ' + hexs(sqlparse.format(t, **o))
+        except Exception as e:
+            io = 'err ' + type(e).__name__
+            ctx.count('S-FMT:' + io)
+        ctx.stream('S-FMT', inputs=1, lines=1)
+        if io.split() != mo.split():
+            ctx.mismatch('S-FMT', (t, o), unhex_short(mo), unhex_short(io))
+
+
+def unhex_short(line):
+    if line.startswith('ok'):
+        try:
+            return 'ok ' + short(unhex(line[3:]), 300)
+        except Exception:
+            pass
+    return line[:300]
 
 
 def common_short(s):
